@@ -24,7 +24,7 @@ import copy
 import os
 
 from simkit import findings, world
-from simkit.sim import SimCrash
+from simkit.sim import HarnessTruncated, SimCrash, Violation
 
 from . import gitsim
 
@@ -136,6 +136,10 @@ def gen_case(rng):
         op = {"op": "update", "upto": upto, "outcome": outcome, "midquery": rng.random() < 0.3}
         if outcome == "crash":
             op["applied"] = rng.random() < 0.5
+            # mutating store operation of commit_write_group at which the process dies (the
+            # put is the first and only one today); stream writes may be torn
+            op["at"] = rng.choice([1, 1, 1, 2, 2, 3])
+            op["torn"] = rng.choice([None, 0.0, 0.5, 0.9])
         ops.append(op)
         if outcome == "commit":
             pos = upto
@@ -348,23 +352,40 @@ def run_case(sim, run, plan, case_no):
     except ImportError:
         sim.probe("tdb_unavailable")
     stats = {"reopened_with_data": False, "bad_groups": 0, "sweeps": 0}
+    broken = set()  # backends that raised outside a query: reported, then left alone
     try:
         for i, op in enumerate(plan["ops"]):
             kind = op["op"]
             if kind == "update":
                 for b in backends:
-                    _update(run, b, op, i, revids, rec, uni, stats)
+                    if b.name in broken:
+                        continue
+                    try:
+                        _update(run, b, op, i, revids, rec, uni, stats)
+                    except (SimCrash, Violation, HarnessTruncated):
+                        raise
+                    except _Unreadable:
+                        broken.add(b.name)
+                    except Exception as e:  # noqa: BLE001 - no step of a cache update may fail like this
+                        _backend_raised(run, b, "update", e, f"op {i} (update to {op['upto']}, {op['outcome']})", broken)
             elif kind == "reopen":
                 for b in backends:
-                    if b.persistent and b.name in op["which"]:
+                    if b.persistent and b.name in op["which"] and b.name not in broken:
                         if _committed(b):
                             stats["reopened_with_data"] = True
-                        b.reopen()
+                        try:
+                            b.reopen()
+                        except (SimCrash, Violation, HarnessTruncated):
+                            raise
+                        except Exception as e:  # noqa: BLE001
+                            _backend_raised(run, b, "open", e, f"op {i} (reopen)", broken)
+                            continue
                         sim.event("reopen", i, b.name)
                         sim.probe("reopen:" + b.name)
             elif kind == "query":
                 for b in backends:
-                    _sweep(run, b, uni, f"op {i} (query)")
+                    if b.name not in broken:
+                        _sweep(run, b, uni, f"op {i} (query)")
                 stats["sweeps"] += 1
             sim.state_seen(tuple((b.name, len(_committed(b)), len(_ever(b)) - len(_committed(b))) for b in backends))
     finally:
@@ -381,6 +402,24 @@ def run_case(sim, run, plan, case_no):
         and (uni["multi"] > 0 or stats["bad_groups"] > 0)
     )
     run.finish()
+
+
+def _backend_raised(run, b, step, e, where, broken):
+    """Opening a cache, write-group calls and add_object may not raise (and after a crash a
+    fresh opener must see the old or the new state): a violation, never a harness error."""
+    import traceback
+
+    fn = "?"
+    tb = e.__traceback__
+    while tb is not None:
+        code = tb.tb_frame.f_code
+        if "/breezy/git/cache.py" in code.co_filename:
+            fn = code.co_name
+        tb = tb.tb_next
+    if fn == "?" and not isinstance(e, Exception):
+        raise e
+    run.disagree(b.name, f"{step}:{fn}", "raised:" + type(e).__name__, f"{where} backend {b.name}: {type(e).__name__}: {str(e)[:300]}\n{''.join(traceback.format_tb(e.__traceback__)[-3:])[:600]}")
+    broken.add(b.name)
 
 
 def _committed(b):
@@ -449,20 +488,37 @@ def _update(run, b, op, i, revids, rec, uni, stats):
     else:
         stats["bad_groups"] += 1
         if isinstance(b, IndexBackend):
-            sim.arm([{"kind": "crash", "at": 1, "count": "mut", "applied": bool(op.get("applied"))}])
+            fault = {"kind": "crash", "at": int(op.get("at", 1)), "count": "mut", "applied": bool(op.get("applied"))}
+            if op.get("torn") is not None:
+                fault["torn"] = op["torn"]
+            fired = sum(sim.faults_fired.values())
+            sim.arm([fault])
+            crashed = False
             try:
                 b.idmap.commit_write_group()
-                raise AssertionError("harness: the armed crash did not fire in commit_write_group")
             except SimCrash:
-                pass
+                crashed = True
             sim.disarm()
+            if not crashed:
+                if sum(sim.faults_fired.values()) != fired:
+                    raise AssertionError("harness: the crash fired but commit_write_group returned")
+                # commit_write_group has fewer mutating operations than the crash point: it completed
+                for r in todo:
+                    gitsim.apply_revision(b.ref.C, rec[r])
+                sim.probe("crash_point_beyond_commit")
+                sim.event("update", i, b.name, "commit(no crash)", len(todo))
+                return
             sim.restart_main()
             b.reopen()
-            present = [r for r in todo if _has_commit(b, r)]
+            state = [_has_commit(run, b, r, where) for r in todo]
+            if "raised" in state:
+                sim.probe("crash_group_unreadable")
+                raise _Unreadable()
+            present = [r for r, st in zip(todo, state) if st]
             if present and len(present) != len(todo):
                 run.disagree(
                     b.name, "crash-in-commit_write_group", "partial-group",
-                    f"{where}: after the crash (put {'applied' if op.get('applied') else 'dropped'}) and re-opening, only {present} of the group {todo} are present",
+                    f"{where}: after the crash (at mutating op {fault['at']}, {'applied' if op.get('applied') else 'dropped'}, torn {op.get('torn')}) and re-opening, only {present} of the group {todo} are present",
                 )
             if len(present) == len(todo):
                 for r in todo:
@@ -475,12 +531,22 @@ def _update(run, b, op, i, revids, rec, uni, stats):
     sim.probe(f"group:{outcome}")
 
 
-def _has_commit(b, revid):
+class _Unreadable(Exception):
+    """(internal) the backend was reported as raising from a lookup; stop driving it."""
+
+
+def _has_commit(run, b, revid, where):
+    """True / False / 'raised' (reported: a lookup answers or raises KeyError, nothing else)."""
     try:
         b.idmap.lookup_commit(revid)
         return True
     except KeyError:
         return False
+    except (SimCrash, Violation, HarnessTruncated):
+        raise
+    except Exception as e:  # noqa: BLE001
+        run.disagree(b.name, "lookup_commit", "raised:" + type(e).__name__, f"{where}: after the crash in commit_write_group and re-opening, lookup_commit({revid!r}) raised {type(e).__name__}: {str(e)[:300]}")
+        return "raised"
 
 
 def _b(v):
